@@ -19,6 +19,8 @@ def exec_for(ex, s: ast.For, st):
     line = s.lineno - ex.fn.lineno
     it = s.iter
     w = ex.write_set(s.body, st) | set(ls.ghost)  # ghost variables updated per iteration are loop-modified too
+    from .symexec import target_root as _tr
+    ex.__dict__.setdefault("_last_w", {})[id(s)] = set(w) | set(_tr(s.target)) | {ls.index or f"_k{k}", ls.done or f"_done{k}", (ls.done or f"_done{k}") + "_n", ls.index or f"_pair{k}"}
     ev = Eval(ex, st)
 
     # ---- range
